@@ -63,12 +63,17 @@ CURATED_DAGS = {
     "ladder": [("a", "b"), ("b", "c"), ("c", "d"), ("a", "c"), ("b", "d")],
     "funnel": [("a", "b"), ("a", "c"), ("b", "d"), ("c", "d"), ("d", "e")],
     "bowtie": [("a", "c"), ("b", "c"), ("c", "d"), ("d", "e"), ("d", "f")],
+    "side_branch": [("a", "b"), ("b", "d"), ("a", "c"), ("c", "b")],
+    "two_chains_cross": [("a", "b"), ("b", "e"), ("c", "d"), ("d", "f"), ("b", "d")],
 }
 
 CURATED_DIGRAPHS = {
     "single_edge_st": [("s", "t")],
     "path_st": [("s", "a"), ("a", "t")],
     "self_loop": [("s", "a"), ("a", "a"), ("a", "t")],
+    "side_branch_cyc": [("s", "a"), ("a", "b"), ("b", "a"), ("b", "t"), ("s", "z"), ("z", "a")],
+    "self_loop_bypass": [("s", "x"), ("x", "a"), ("s", "a"), ("a", "a"), ("a", "t")],
+    "two_self_loops": [("s", "a"), ("a", "a"), ("a", "b"), ("b", "b"), ("b", "t"), ("s", "b")],
     "two_cycle": [("s", "a"), ("a", "b"), ("b", "a"), ("b", "t")],
     "two_cycle_exit_a": [("s", "a"), ("a", "b"), ("b", "a"), ("a", "t")],
     "touching_cycles": [("s", "a"), ("a", "b"), ("b", "a"), ("a", "c"), ("c", "a"), ("a", "t")],
